@@ -60,6 +60,8 @@ class C06:
         for _ in range(n):
             exe = rng.choice(["detect", "build"])
             cfg = c05mod.base_cfg(exe=exe, nargs=2 if exe == "detect" else 3)
+            # CNB_BUILDPACK_DIR as given: a plain path, a symlink to the directory, or a path with a `..` component
+            cfg["bp_form"] = rng.choice(["plain", "plain", "symlink", "dotdot"])
             tree = []
             used = set()
             for _ in range(rng.randint(0, 5)):
@@ -165,7 +167,7 @@ class C06:
         tgt = "(mkTarget %s %s %s %s %s)" % (cq_bytes(t["os"]), cq_bytes(t["arch"]),
                                             "None" if t["arch_variant"] is None else f"(Some {cq_bytes(t['arch_variant'])})",
                                             cq_bytes(t["distro_name"]), cq_bytes(t["distro_version"]))
-        dirs_ok = bytes(ctx["app_dir"]).decode() == os.path.join(root, "app") and bytes(ctx["buildpack_dir"]).decode() == os.path.join(root, "bp")
+        dirs_ok = bytes(ctx["app_dir"]).decode() == os.path.join(root, "app") and bytes(ctx["buildpack_dir"]).decode() == o.get("bp_env", os.path.join(root, "bp"))
         if c["exe"] == "build":
             dirs_ok = dirs_ok and bytes(ctx["layers_dir"]).decode() == os.path.join(root, "layers")
         plat = cq_list([f"({cq_bytes(k)}, {cq_bytes(v)})" for k, v in ctx["platform"]])
